@@ -152,7 +152,7 @@ def gen_cases(rng, n, tier):
 def corpus_cases():
     A = lambda x, e: ["=", x, e]
     return [
-        # F8: first occurrence of a later re-assigned symbol is stored un-substituted
+        # F8 (fixed by e5b2100): first occurrence of a later re-assigned symbol was stored un-substituted
         {"kind": "prog", "stmts": [A("A", "1"), A("B", "A"), A("A", "2"), A("B", "B + A"), A("Y", "POP_CL + B + EPS_1")],
          "base": "plain", "rename": [["A", "R_A"]], "seed": 1},
         # pending value reads an input that is assigned before the pending symbol's last assignment
@@ -174,7 +174,7 @@ def corpus_cases():
         # proportional eta (mu must be solved for all eta, not at eta = 0) and additive eta
         {"kind": "prog", "stmts": [A("CL", "POP_CL*(1 + ETA_CL)"), A("V", "POP_VC + ETA_VC"), A("Y", "CL/V + EPS_1")],
          "base": "plain", "rename": [["CL", "R_CL"]], "seed": 9},
-        # fixed omega: replace_fixed_thetas removes it from the parameters
+        # fixed omega (fixed by 4dd8d54): replace_fixed_thetas removed it from the parameters
         {"kind": "model", "base": "pheno_linear", "pre": ["fix"], "seed": 10},
         {"kind": "model", "base": "pheno", "pre": [], "seed": 6},
         {"kind": "model", "base": "pheno", "pre": ["peripheral", "absorption"], "seed": 7},
@@ -305,10 +305,7 @@ def run_prog(case, drv):
             mon.append({"cls": "make-declarative-not-declarative", "what": f"a symbol is assigned twice in the result: {lhs}"})
         diff = U.compare_eval(ev0, U.evaluate(md_sts, seed, small=SMALL))
         if diff:
-            cls = ("make-declarative-first-assignment-not-substituted" if "first" in md_bad else
-                   "make-declarative-pending-value-reads-reassigned-symbol" if "emit" in md_bad else
-                   "make-declarative-changes-value")
-            mon.append({"cls": cls, "what": f"make_declarative changed the model function: {diff}"})
+            mon.append({"cls": _md_class(md_bad), "what": f"make_declarative changed the model function: {diff}"})
         if drv is not None and w is not None:
             ans = drv.ask(["md", w])
             k += U.compare_wire(ans[0], md_sts, rng, "make_declarative")
@@ -340,7 +337,7 @@ def run_prog(case, drv):
         if C is not None:
             cs = C.statements
             changed |= list(cs) != list(md_sts)
-            nfixed = sum(1 for p in M.parameters if p.fix) if case["base"] == "fixed" else 0
+            nfixed = len(_fixed_thetas(M)) if case["base"] == "fixed" else 0
             body = cs[nfixed:]
             ev_md = U.evaluate(md_sts, seed, small=SMALL, override=_fixed_override(M, case))
             ev_c = U.evaluate(cs, seed, small=SMALL, override=_fixed_override(M, case))
@@ -407,10 +404,10 @@ def run_prog(case, drv):
                                   U.evaluate(R.statements, seed, small=SMALL, override=ov))
             if diff:
                 mon.append({"cls": "replace-fixed-thetas-changes-value", "what": f"replace_fixed_thetas: {diff}"})
-            fixed = [p.name for p in M.parameters if p.fix]
+            fixed = _fixed_thetas(M)
             head = [str(s.symbol) for s in R.statements[:len(fixed)] if U.is_assignment(s)]
             if head != fixed or list(R.statements[len(fixed):]) != list(M.statements) or set(fixed) & set(R.parameters.names):
-                k.append(f"replace_fixed_thetas: result is not [theta = init for fixed {fixed}] ++ statements (prependConsts)")
+                k.append(f"replace_fixed_thetas: result is not [theta = init for fixed thetas {fixed}] ++ statements (prependConsts)")
 
     # ---------- mu_reference_model
     R = _call(mon, tags, "mu_reference_model", lambda: pm.mu_reference_model(M), refusal=(IndexError, NotImplementedError))
@@ -436,8 +433,7 @@ def run_prog(case, drv):
 
 
 def _md_class(md_bad):
-    return ("make-declarative-first-assignment-not-substituted" if "first" in md_bad else
-            "make-declarative-pending-value-reads-reassigned-symbol" if "emit" in md_bad else
+    return ("make-declarative-pending-value-reads-reassigned-symbol" if "emit" in md_bad else
             "make-declarative-changes-value")
 
 
@@ -455,6 +451,12 @@ def _call_md(mon, tags, M, md_bad):
         else:
             mon.append({"cls": "internal-error:make_declarative", "what": f"make_declarative raised {type(e).__name__}: {msg[:200]}"})
         return None
+
+
+def _fixed_thetas(m):
+    """The parameters replace_fixed_thetas replaces (since 4dd8d54): fixed parameters that are thetas, in order."""
+    thetas = set(pm.get_thetas(m).names)
+    return [p.name for p in m.parameters if p.fix and p.name in thetas]
 
 
 def _fixed_variance_params(m, after_non_random=False):
@@ -708,9 +710,7 @@ def run_model(case, drv):
         tags.append("r:make_declarative")
         changed |= list(R.statements) != list(m.statements)
         if diff:
-            cls = ("make-declarative-first-assignment-not-substituted" if "first" in md_bad else
-                   "make-declarative-pending-value-reads-reassigned-symbol" if "emit" in md_bad else "make-declarative-changes-value")
-            mon.append({"cls": cls, "what": f"make_declarative changed the model function of {case['base']}+{case['pre']}: {diff}"})
+            mon.append({"cls": _md_class(md_bad), "what": f"make_declarative changed the model function of {case['base']}+{case['pre']}: {diff}"})
         if drv is not None and wm is not None:
             ans = drv.ask(["md", wm])
             k += U.compare_wire(ans[0], R.statements, rng, "make_declarative")
@@ -774,6 +774,12 @@ def run_model(case, drv):
                         "what": f"replace_fixed_thetas of {case['base']}+{case['pre']} (fixed: {sorted(ov)}) raised {type(e).__name__}: {str(e)[:200]}"})
         if R is not None:
             _rft_check(mon, "replace_fixed_thetas", mf, R)
+            ft = _fixed_thetas(mf)
+            head = [str(s_.symbol) for s_ in R.statements[:len(ft)] if U.is_assignment(s_)]
+            if head != ft or list(R.statements[len(ft):]) != list(mf.statements) or \
+                    list(R.parameters.names) != [n for n in mf.parameters.names if n not in ft]:
+                k.append(f"replace_fixed_thetas: result is not [theta = init for fixed thetas {ft}] ++ statements with exactly "
+                         f"those parameters removed (prependConsts): head {head}, parameters {list(R.parameters.names)}")
             sem("replace_fixed_thetas", R, ev0_=U.evaluate(mf.statements, seed, small=small, override=ov), ev_kw={"override": ov})
     # remove_unused_parameters_and_rvs
     R = _call(mon, tags, "remove_unused_parameters_and_rvs", lambda: pm.remove_unused_parameters_and_rvs(m))
